@@ -11,23 +11,28 @@
 (*   last     highest TXID a sync of this process has seen (db.lastTXID)    *)
 (*   up       litestream is running; inited: init() has run in this process *)
 (*   acked    the last step was an acknowledged sync                        *)
+(*   snap     the newest level-9 snapshot on the replica: [max, id] = the   *)
+(*            state of file `id`, advertised as covering TXIDs 1..max       *)
 (* Actions: Start (init: compares with the replica once), Stop, Sync (one   *)
 (* new file on top of the file at the position), Upload (syncOnce: files    *)
 (* above the replica position), Ack (sync + upload), LocalLoss (the newest  *)
 (* k local files vanish, while running or while down), Reset (the whole     *)
 (* local state vanishes: ResetLocalState / auto-recover), Invalidate (the   *)
-(* cached position is dropped: level-0 retention, re-enable).               *)
+(* cached position is dropped: level-0 retention, re-enable), Snapshot      *)
+(* (DB.Snapshot: a level-9 file for the local position).                    *)
 (* Variant: "asis" = the code now; "zeroOnly" = before the repair of S2      *)
 (* (re-check only at position zero); "initOnly" = before the repair of F3   *)
-(* (re-check only in init).  The last two are negative controls.            *)
+(* (re-check only in init); "snapAhead" = before the repair of S3 (a        *)
+(* snapshot may be written ahead of the level-0 uploads).  The last three   *)
+(* are negative controls.                                                   *)
 (***************************************************************************)
 EXTENDS Integers, Sequences, TLC
 CONSTANTS MaxTx, MaxId, Variant
 
-VARIABLES loc, rem, cache, last, up, inited, acked, nextId
-vars == <<loc, rem, cache, last, up, inited, acked, nextId>>
+VARIABLES loc, rem, cache, last, up, inited, acked, nextId, snap
+vars == <<loc, rem, cache, last, up, inited, acked, nextId, snap>>
 
-Init == /\ loc = <<>> /\ rem = <<>> /\ cache = 0 /\ last = 0 /\ up = FALSE /\ inited = FALSE /\ acked = FALSE /\ nextId = 1
+Init == /\ loc = <<>> /\ rem = <<>> /\ cache = 0 /\ last = 0 /\ up = FALSE /\ inited = FALSE /\ acked = FALSE /\ nextId = 1 /\ snap = [max |-> 0, id |-> 0]
 
 \* DB.Pos(): the cached value, or the newest file found on disk
 Pos == IF cache # 0 THEN cache ELSE Len(loc)
@@ -37,8 +42,8 @@ Behind(l) == IF Len(l) < Len(rem) THEN rem ELSE l
 NewFile(l) == [id |-> nextId, parent |-> IF Len(l) = 0 THEN 0 ELSE l[Len(l)].id]
 
 Start == /\ ~up /\ up' = TRUE /\ inited' = FALSE /\ cache' = 0 /\ last' = 0 /\ acked' = FALSE
-         /\ UNCHANGED <<loc, rem, nextId>>
-Stop  == /\ up /\ up' = FALSE /\ acked' = FALSE /\ UNCHANGED <<loc, rem, cache, last, inited, nextId>>
+         /\ UNCHANGED <<loc, rem, nextId, snap>>
+Stop  == /\ up /\ up' = FALSE /\ acked' = FALSE /\ UNCHANGED <<loc, rem, cache, last, inited, nextId, snap>>
 
 \* newSyncExecutor (+ init on the first sync of the process) followed by verify/sync
 \* a cached position that points at a vanished file makes verify() fail loudly: no step
@@ -47,27 +52,38 @@ SyncStep(ack) ==
   /\ Pos <= Len(loc)
   /\ LET cut == SubSeq(loc, 1, Pos)                                   \* files above the position are overwritten
          recheck == \/ ~inited                                          \* init()
-                    \/ Variant = "asis" /\ (Pos = 0 \/ Pos < last)
+                    \/ Variant \in {"asis", "snapAhead"} /\ (Pos = 0 \/ Pos < last)
                     \/ Variant = "zeroOnly" /\ Pos = 0
          base == IF recheck THEN Behind(cut) ELSE cut
          new  == Append(base, NewFile(base))
      IN /\ loc' = new /\ cache' = Len(new) /\ last' = Len(new) /\ inited' = TRUE /\ nextId' = nextId + 1
         /\ rem' = IF ack /\ Len(new) > Len(rem) THEN rem \o SubSeq(new, Len(rem) + 1, Len(new)) ELSE rem
         /\ acked' = ack
-  /\ UNCHANGED up
+  /\ UNCHANGED <<up, snap>>
 Sync == SyncStep(FALSE)
 Ack  == SyncStep(TRUE)
 
 LocalLoss(k) == /\ k \in 1..Len(loc) /\ loc' = SubSeq(loc, 1, Len(loc) - k) /\ acked' = FALSE
-                /\ UNCHANGED <<rem, cache, last, up, inited, nextId>>
-Reset == /\ up /\ loc' = <<>> /\ cache' = 0 /\ acked' = FALSE /\ UNCHANGED <<rem, last, up, inited, nextId>>
-Invalidate == /\ up /\ cache # 0 /\ cache' = 0 /\ acked' = FALSE /\ UNCHANGED <<loc, rem, last, up, inited, nextId>>
+                /\ UNCHANGED <<rem, cache, last, up, inited, nextId, snap>>
+Reset == /\ up /\ loc' = <<>> /\ cache' = 0 /\ acked' = FALSE /\ UNCHANGED <<rem, last, up, inited, nextId, snap>>
+Invalidate == /\ up /\ cache # 0 /\ cache' = 0 /\ acked' = FALSE /\ UNCHANGED <<loc, rem, last, up, inited, nextId, snap>>
+\* DB.Snapshot: a level-9 file with the state of the file at the local position; as the code is now the level-0 files up to that
+\* position are uploaded first
+Snapshot == /\ up /\ inited /\ Pos >= 1 /\ Pos <= Len(loc)
+            /\ snap' = [max |-> Pos, id |-> loc[Pos].id]
+            /\ rem' = IF Variant # "snapAhead" /\ Pos > Len(rem) THEN rem \o SubSeq(loc, Len(rem) + 1, Pos) ELSE rem
+            /\ acked' = FALSE /\ UNCHANGED <<loc, cache, last, up, inited, nextId>>
 
-Next == Start \/ Stop \/ Sync \/ Ack \/ Reset \/ Invalidate \/ \E k \in 1..MaxTx : LocalLoss(k)
+Next == Start \/ Stop \/ Sync \/ Ack \/ Reset \/ Invalidate \/ Snapshot \/ \E k \in 1..MaxTx : LocalLoss(k)
 Spec == Init /\ [][Next]_vars
 
 \* C04: the replica is ONE chain (every file was computed on top of the file before it, or is a snapshot) ...
 OneChain == \A i \in 2..Len(rem) : rem[i].parent = rem[i-1].id \/ rem[i].parent = 0
 \* ... and an acknowledged sync means the replica ends with the file that sync produced
 AckMeansStored == acked => (Len(rem) = Len(loc) /\ rem[Len(rem)].id = loc[Len(loc)].id)
+\* ... and a restore of the latest state (newest snapshot, then the level-0 files above it) returns that file's state
+RestoredId == IF Len(rem) > snap.max THEN rem[Len(rem)].id ELSE snap.id
+AckMeansRestorable == acked => RestoredId = loc[Len(loc)].id
+\* a snapshot is the state of the replica's own file at the position it advertises
+SnapshotOnChain == snap.max > 0 => (snap.max <= Len(rem) /\ rem[snap.max].id = snap.id)
 ====
